@@ -198,7 +198,7 @@ class Fs:
                 raise FormatError("bad extent magic in inode %d" % ino)
             if depth_expect is not None and depth != depth_expect:
                 raise FormatError("extent depth mismatch in inode %d" % ino)
-            if depth > 5 or entries > mx or 12 + 12 * mx > len(buf):
+            if depth > 32 or entries > mx or 12 + 12 * mx > len(buf):
                 raise FormatError("bad extent header in inode %d" % ino)
             for i in range(entries):
                 o = 12 + 12 * i
@@ -250,6 +250,8 @@ class Fs:
         inode = inode or self.inode(ino)
         if inode["flags"] & INLINE_DATA_FL:
             return {}, []
+        if (inode["mode"] & 0xF000) == 0xA000 and 0 < inode["size"] < 60 and not inode["flags"] & EXTENTS_FL:
+            return {}, []          # fast symlink (target stored in i_block)
         if inode["flags"] & EXTENTS_FL:
             exts, nodes = self.extent_tree(ino, inode)
             m = {}
@@ -258,8 +260,8 @@ class Fs:
                     m[lblk + k] = (pblk + k, un)
             return m, [n[0] for n in nodes]
         fmt = inode["mode"] & 0xF000
-        if fmt == 0xA000 and inode["blocks"] == 0:
-            return {}, []          # fast symlink
+        if fmt == 0xA000 and 0 < inode["size"] < 60:
+            return {}, []          # fast symlink (target stored in i_block)
         if fmt in (0x1000, 0x2000, 0x6000, 0xC000):
             return {}, []
         m, meta = self.ind_blocks(ino, inode)
@@ -271,7 +273,7 @@ class Fs:
         if inode["flags"] & INLINE_DATA_FL:
             return None
         fmt = inode["mode"] & 0xF000
-        if fmt == 0xA000 and size < 60 and inode["blocks"] == 0:
+        if fmt == 0xA000 and 0 < size < 60 and not inode["flags"] & EXTENTS_FL:
             return inode["i_block"][:size]
         m, _ = self.file_map(ino, inode)
         out = bytearray(size)
@@ -365,3 +367,318 @@ def tree(fs, with_times=False, max_nodes=200000):
             ent = ent + (i["mtime"],)
         out[path] = ent
     return out
+
+
+# ---- consistency (the invariants of C02), judged from the on-disk format alone
+_crc_tab = None
+
+
+def crc32c(seed, data):
+    global _crc_tab
+    if _crc_tab is None:
+        _crc_tab = []
+        for i in range(256):
+            c = i
+            for _ in range(8):
+                c = (c >> 1) ^ (0x82F63B78 if c & 1 else 0)
+            _crc_tab.append(c)
+    c = seed
+    t = _crc_tab
+    for b in data:
+        c = t[(c ^ b) & 255] ^ (c >> 8)
+    return c
+
+
+def _crc16(seed, data):
+    c = seed
+    for b in data:
+        c ^= b
+        for _ in range(8):
+            c = (c >> 1) ^ (0xA001 if c & 1 else 0)
+    return c
+
+
+def fixed_metadata(fs):
+    """blocks owned by the format itself: superblocks, descriptor tables (+reserved), bitmaps, inode tables"""
+    own = {}
+
+    def claim(b, n, what):
+        for k in range(n):
+            own.setdefault(b + k, []).append(what)
+    for g in range(fs.groups_count):
+        gb = fs.group_first_block(g)
+        gb1 = 1 if (gb == 0 and fs.bs == 1024) else gb      # bigalloc 1k quirk
+        hs = fs.bg_has_super(g)
+        if hs:
+            claim(gb1 if g else (0 if fs.bs > 1024 else 1), 1, "sb")
+            if g == 0 and fs.bs > 1024:
+                pass
+        mbs = fs.desc_per_block
+        if not (fs.incompat & INCOMPAT_META_BG) or (g // mbs) < fs.first_meta_bg:
+            if hs:
+                nold = fs.first_meta_bg if fs.incompat & INCOMPAT_META_BG else fs.desc_blocks + fs.reserved_gdt
+                claim(gb1 + 1, nold, "gdt")
+        else:
+            if g % mbs in (0, 1, mbs - 1):
+                claim(gb1 + (1 if hs else 0), 1, "gdt")
+        gd = fs.groups[g]
+        claim(gd["block_bitmap"], 1, "bb")
+        claim(gd["inode_bitmap"], 1, "ib")
+        claim(gd["inode_table"], fs.itb_per_group, "it")
+    if fs.bs == 1024 or fs.first_data_block > 0:
+        for b in range(fs.first_data_block):
+            own.setdefault(b, []).append("boot")
+    if fs.incompat & INCOMPAT_MMP and fs.mmp_block:
+        claim(fs.mmp_block, 1, "mmp")
+    return own
+
+
+def consistency(fs, check_csums=True):
+    """returns a list of violated invariant clauses (empty = consistent)"""
+    bad = []
+    add = lambda clause, msg: bad.append("%s: %s" % (clause, msg)) if len(bad) < 40 else None
+    seed = fs.checksum_seed if fs.incompat & INCOMPAT_CSUM_SEED else crc32c(0xFFFFFFFF, fs.uuid)
+    own = fixed_metadata(fs)
+    for b, who in own.items():
+        if len(who) > 1 and not (set(who) <= {"boot", "sb"}):
+            add("single_owner", "fixed metadata block %d claimed by %s" % (b, who))
+        if b >= fs.blocks_count:
+            add("range", "fixed metadata block %d beyond the filesystem" % b)
+    cr = fs.cluster_ratio
+    owner = {}            # block -> inode
+    used_inodes = fs.in_use_inodes()
+    used_set = set(used_inodes)
+    dirs, links_found, is_dir = {}, {}, {}
+    special = {1, fs.journal_inum} | ({7} if fs.compat & COMPAT_RESIZE_INODE else set())
+    for o in (0x240, 0x244, 0x26C):   # usr/grp/prj quota inodes
+        q = struct.unpack_from("<I", fs.sb_raw, o)[0]
+        if q:
+            special.add(q)
+    orphan_ino = struct.unpack_from("<I", fs.sb_raw, 0x280)[0] if fs.compat & COMPAT_ORPHAN_FILE else 0
+    if orphan_ino:
+        special.add(orphan_ino)
+    ea_inodes = set()
+
+    def claim_block(b, ino, what):
+        if b < fs.first_data_block or b >= fs.blocks_count:
+            add("range", "inode %d references block %d (%s) outside the filesystem" % (ino, b, what))
+            return
+        if b in own:
+            add("not_meta", "inode %d references fixed metadata block %d (%s)" % (ino, b, what))
+            return
+        prev = owner.get(b)
+        if prev is not None and prev != ino:
+            if cr == 1 and not fs.ro_compat & 0x4000:       # shared_blocks: sharing is intended
+                add("single_owner", "block %d claimed by inodes %d and %d" % (b, prev, ino))
+        owner[b] = ino
+    for ino in used_inodes:
+        try:
+            i = fs.inode(ino)
+        except FormatError as ex:
+            add("range", str(ex))
+            continue
+        if ino < fs.first_ino and ino not in (2,) and ino not in special:
+            continue              # reserved inodes other than the ones with a defined role are not judged
+        if ino == 1:
+            # the bad-blocks inode may list any block, fixed metadata included: its blocks count as in use
+            try:
+                m1, meta1 = fs.ind_blocks(1, i)
+                for b in list(m1.values()) + meta1:
+                    if fs.first_data_block <= b < fs.blocks_count and b not in own:
+                        owner.setdefault(b, 1)
+            except (FormatError, struct.error):
+                pass
+            continue
+        if i["links"] == 0 and i["dtime"] and ino >= fs.first_ino:
+            add("ibitmap", "inode %d is marked in use but deleted" % ino)
+            continue
+        fmt = i["mode"] & 0xF000
+        is_dir[ino] = fmt == 0x4000
+        if check_csums and fs.has_csum:
+            raw = bytearray(i["raw"])
+            has_hi = fs.inode_size > 128 and i["extra_isize"] >= 4
+            lo = struct.unpack_from("<H", raw, 124)[0]
+            hi = struct.unpack_from("<H", raw, 130)[0] if has_hi else 0
+            raw[124:126] = b"\0\0"
+            if has_hi:
+                raw[130:132] = b"\0\0"
+            c = crc32c(crc32c(crc32c(seed, struct.pack("<I", ino)), raw[100:104]), bytes(raw))
+            if (c & 0xFFFF) != lo or (has_hi and (c >> 16) != hi):
+                add("csum_inode", "inode %d checksum" % ino)
+        if i["flags"] & EA_INODE_FL:
+            ea_inodes.add(ino)
+        if ino == 7 and fs.compat & COMPAT_RESIZE_INODE:
+            # documented exception: the resize inode's double-indirect block maps the reserved
+            # GDT blocks (fixed metadata); only the DIND block itself is an owned block
+            dind = struct.unpack_from("<15I", i["i_block"], 0)[13]
+            if dind:
+                claim_block(dind, ino, "resize dind")
+            continue
+        try:
+            fmap, meta = fs.file_map(ino, i)
+        except FormatError as ex:
+            add("extents", str(ex))
+            continue
+        except struct.error:
+            add("extents", "inode %d mapping unreadable" % ino)
+            continue
+        for b in meta:
+            claim_block(b, ino, "mapping metadata")
+        for lblk, (p, un) in fmap.items():
+            claim_block(p, ino, "data")
+        if i["file_acl"]:
+            claim_xattr = owner.get(i["file_acl"])
+            if i["file_acl"] < fs.first_data_block or i["file_acl"] >= fs.blocks_count or i["file_acl"] in own:
+                add("range", "inode %d xattr block %d invalid" % (ino, i["file_acl"]))
+            else:
+                owner.setdefault(i["file_acl"], -ino)     # xattr blocks may be shared (refcount)
+        nblk = (len({p // cr for (p, u) in fmap.values()}) + len({b // cr for b in meta})) * cr + (cr if i["file_acl"] else 0)
+        iblocks = i["blocks"] * (fs.bs // 512 if i["flags"] & HUGE_FILE_FL and fs.ro_compat & RO_HUGE_FILE else 1)
+        if cr == 1 and iblocks != nblk * (fs.bs // 512) and not (i["flags"] & INLINE_DATA_FL) and ino not in ea_inodes:
+            # ea_inode value blocks are charged to the parent by the kernel; compare leniently there
+            if not (fs.incompat & INCOMPAT_EA_INODE):
+                add("iblocks", "inode %d i_blocks %d, maps %d blocks" % (ino, i["blocks"], nblk))
+        if fmt == 0x4000:
+            if i["flags"] & INLINE_DATA_FL:
+                dirs[ino] = None
+                continue
+            ents = []
+            gen = i["generation"]
+            for lblk in sorted(fmap):
+                if lblk * fs.bs >= i["size"]:
+                    continue
+                blk = fs.block(fmap[lblk][0])
+                try:
+                    es = fs.dir_block_entries(blk)
+                except FormatError as ex:
+                    add("dirblocks", "directory inode %d block %d: %s" % (ino, lblk, ex))
+                    continue
+                # checksum tail / htree node
+                if check_csums and fs.has_csum:
+                    i0, rl0 = struct.unpack_from("<IH", blk, 0)
+                    dx = None
+                    if i["flags"] & INDEX_FL and lblk == 0:
+                        dx = 0x20
+                    elif i["flags"] & INDEX_FL and i0 == 0 and rl0 in (fs.bs & 0xFFFF, 0) and len(es) == 1:
+                        dx = 8
+                    if dx is not None:
+                        limit, count = struct.unpack_from("<HH", blk, dx)
+                        toff = dx + 8 * limit
+                        if toff + 8 <= fs.bs and count <= limit:
+                            c = crc32c(crc32c(crc32c(crc32c(crc32c(seed, struct.pack("<I", ino)), struct.pack("<I", gen)),
+                                                     blk[:dx + 8 * count]), blk[toff:toff + 4]), b"\0\0\0\0")
+                            if c != struct.unpack_from("<I", blk, toff + 4)[0]:
+                                add("csum_dir", "htree node checksum, inode %d block %d" % (ino, lblk))
+                        else:
+                            add("htree", "inode %d block %d: bad count/limit" % (ino, lblk))
+                    else:
+                        ti, trl, tnl, tft = struct.unpack_from("<IHBB", blk, fs.bs - 12)
+                        if (ti, trl, tnl, tft) != (0, 12, 0, 0xDE):
+                            add("csum_dir", "directory inode %d block %d has no checksum tail" % (ino, lblk))
+                        else:
+                            c = crc32c(crc32c(crc32c(seed, struct.pack("<I", ino)), struct.pack("<I", gen)), blk[:fs.bs - 12])
+                            if c != struct.unpack_from("<I", blk, fs.bs - 4)[0]:
+                                add("csum_dir", "directory leaf checksum, inode %d block %d" % (ino, lblk))
+                for (o, ci, rl, nl, ft, name) in es:
+                    if ci:
+                        ents.append((name, ci, ft))
+            dirs[ino] = ents
+    # directory graph: links, reachability, '.' and '..'
+    for d, ents in dirs.items():
+        if ents is None:
+            continue
+        names = [e[0] for e in ents]
+        if names[:1] != [b"."] or names[1:2] != [b".."]:
+            add("dirblocks", "directory %d does not start with . and .." % d)
+        for name, ci, ft in ents:
+            if ci < 1 or ci > fs.inodes_count:
+                add("range", "directory %d entry %r references inode %d" % (d, name[:20], ci))
+                continue
+            if name == b".":
+                if ci != d:
+                    add("dirblocks", "'.' of directory %d points to %d" % (d, ci))
+                links_found[d] = links_found.get(d, 0) + 1
+                continue
+            if name == b"..":
+                links_found[ci] = links_found.get(ci, 0) + 1
+                continue
+            links_found[ci] = links_found.get(ci, 0) + 1
+            if ci not in used_set:
+                add("ibitmap", "directory %d entry %r references unused inode %d" % (d, name[:20], ci))
+    reach, stack = set(), [2]
+    while stack:
+        d = stack.pop()
+        if d in reach:
+            continue
+        reach.add(d)
+        for name, ci, ft in (dirs.get(d) or []):
+            if name not in (b".", b"..") and ci in dirs and ci not in reach:
+                stack.append(ci)
+            elif name not in (b".", b".."):
+                reach.add(ci)
+    for ino in used_inodes:
+        if ino not in is_dir:
+            continue
+        if ino < fs.first_ino and ino != 2:
+            continue
+        if ino in ea_inodes or ino in special:
+            continue
+        i = fs.inode(ino)
+        if dirs.get(ino, 0) is None or any(v is None for v in dirs.values()):
+            continue     # inline directories are outside this reader
+        if ino not in reach:
+            add("reach", "inode %d is in use but not reachable from the root" % ino)
+        n = links_found.get(ino, 0)
+        exp = n
+        if is_dir.get(ino) and fs.ro_compat & RO_DIR_NLINK and n > 65000:
+            exp = 1
+        if i["links"] != exp and not (is_dir.get(ino) and i["links"] == 1 and fs.ro_compat & RO_DIR_NLINK):
+            add("links", "inode %d link count %d, %d references" % (ino, i["links"], n))
+    # bitmaps and per-group counts
+    csum = fs.has_group_csum()
+    for g, gd in enumerate(fs.groups):
+        base = fs.group_first_block(g)
+        nblk = min(fs.blocks_per_group, fs.blocks_count - base)
+        bb_uninit = bool(gd["flags"] & BG_BLOCK_UNINIT) and csum
+        bm = None if bb_uninit else fs.block(gd["block_bitmap"])
+        free = 0
+        for c in range((nblk + cr - 1) // cr):
+            blocks = range(base + c * cr, min(base + (c + 1) * cr, base + nblk))
+            in_use = any((b in own) or (b in owner) for b in blocks)
+            if bm is not None:
+                bit = bool(bm[c >> 3] >> (c & 7) & 1)
+                if bit != in_use:
+                    add("bbitmap", "group %d cluster %d: bitmap %d, usage %d" % (g, c, bit, in_use))
+                    break
+            if not in_use:
+                free += 1
+        if free != gd["free_blocks"]:
+            add("group_counts", "group %d free blocks %d, actual %d" % (g, gd["free_blocks"], free))
+        ib_uninit = bool(gd["flags"] & BG_INODE_UNINIT) and csum
+        ifree = fs.inodes_per_group - sum(1 for ino in used_inodes if (ino - 1) // fs.inodes_per_group == g)
+        if ifree != gd["free_inodes"]:
+            add("group_counts", "group %d free inodes %d, actual %d" % (g, gd["free_inodes"], ifree))
+        ndirs = sum(1 for ino, d in is_dir.items() if d and (ino - 1) // fs.inodes_per_group == g)
+        if ndirs != gd["used_dirs"]:
+            add("group_counts", "group %d used dirs %d, actual %d" % (g, gd["used_dirs"], ndirs))
+        if check_csums and fs.has_csum:
+            raw = bytearray(gd["raw"])
+            raw[30:32] = b"\0\0"
+            if (crc32c(crc32c(seed, struct.pack("<I", g)), bytes(raw)) & 0xFFFF) != gd["checksum"]:
+                add("csum_gd", "group %d descriptor checksum" % g)
+            if bm is not None:
+                c = crc32c(seed, bm[:fs.clusters_per_group // 8])
+                if (c & 0xFFFF) != (gd["bb_csum"] & 0xFFFF) or (fs.desc_size >= 64 and c != gd["bb_csum"]):
+                    add("csum_bitmap", "group %d block bitmap checksum" % g)
+            if not ib_uninit:
+                c = crc32c(seed, fs.block(gd["inode_bitmap"])[:fs.inodes_per_group // 8])
+                if (c & 0xFFFF) != (gd["ib_csum"] & 0xFFFF) or (fs.desc_size >= 64 and c != gd["ib_csum"]):
+                    add("csum_bitmap", "group %d inode bitmap checksum" % g)
+        elif check_csums and fs.has_gdt_csum:
+            raw = gd["raw"]
+            c = _crc16(_crc16(_crc16(0xFFFF, fs.uuid), struct.pack("<I", g)), raw[:30] + raw[32:])
+            if c != gd["checksum"]:
+                add("csum_gd", "group %d descriptor crc16" % g)
+    if check_csums and fs.has_csum and crc32c(0xFFFFFFFF, fs.sb_raw[:0x3FC]) != fs.sb_checksum:
+        add("csum_sb", "superblock checksum")
+    return bad
